@@ -172,7 +172,7 @@ CHECKS = {
     "C12": {"level": "model_checking", "parts": [worldx2("C12", 150, 1100)], "assumptions": []},
     "C18": {"level": "model_checking", "parts": [worldx3(200, 1500)], "assumptions": []},
     "C20": {"level": "model_checking", "parts": [enginex("C20")], "assumptions": A_ENGINE},
-    "C13": {"level": "exploration", "parts": [enumx("C13")], "assumptions": []},
+    "C13": {"level": "exploration", "parts": [enumx("C13"), tsanx("C13")], "assumptions": []},
     "C14": {"level": "exploration", "parts": [enumx("C14"), stalex()], "assumptions": []},
     "C15": {"level": "exploration", "parts": [enumx("C15")], "assumptions": []},
     "C16": {"level": "model_checking", "parts": [schedx("C16"), procx(), tsanx("C16")], "assumptions": A_SCHED},
